@@ -169,8 +169,8 @@ NAMES_ASCII = ['p', 'proc_1', 'cat-0']
 NAMES_WILD = [u'prôc', u'€', u'a b', u'a:b', u'x\ny', u'\U0001F600z', u'']
 DATA_BYTES = [b'', b'hello', b'h\xc3\xa9llo', b'\xe2\x82\xac\xf0\x9f\x98\x80', b'\xff\xfe', b'\xc3', b"it's",
               b'a"b\'c', b'\x00\t\n\r\\\x7f\x80', b'line1\nline2\n', b'\xed\xa0\x80', b'\xc0\xaf', b'\xf4\x90\x80\x80',
-              b'ver:3.0 len:5\n']
-DATA_STR = [u'', u'plain', u'héllo', u'€\U0001F600']
+              b'ver:3.0 len:5\n', b'100%', b'%s', b'%(ver)s and %(len)s', b'50%% done %d', b'%']
+DATA_STR = [u'', u'plain', u'héllo', u'€\U0001F600', u'%(payload)s', u'cpu 97% %s']
 
 
 def _run(chk, wd, proved):
@@ -408,16 +408,25 @@ def _run(chk, wd, proved):
     idents = [('supervisor', 'pool'), ('sup-1', 'listeners_2'), (u'süp', u'pöol'), ('a b', 'c:d'), ('', '')]
     maxint = process.maxint if hasattr(process, 'maxint') else sys.maxsize
     payload_texts = ['', 'x', 'processname:p groupname:g from_state:RUNNING pid:1', u'héllo', u'€' * 3,
-                     'a\nb\n', u'\U0001F600', 'when:5']
+                     'a\nb\n', u'\U0001F600', 'when:5', '100%', 'type:t\n%s', '%(ver)s %(len)s %(nokey)s', '%%']
     env_classes = [c for c in real_classes]
     for (sid, pn) in idents:
         pool, opts = I.make_pool(sid, pn)
         try:
             for cls in env_classes:
-                for pl in ([rng.choice(payload_texts)] if quick else payload_texts):
+                for pl in ([rng.choice(payload_texts)] if quick and cls not in (events.RemoteCommunicationEvent, events.ProcessCommunicationStdoutEvent) else payload_texts):
                     serial = rng.choice([0, 1, 9, 10, 99, 12345, maxint - 1, maxint])
                     ps = rng.choice([0, 3, 100, maxint])
-                    r = pool._eventEnvelope(cls, serial, ps, pl)
+                    try:
+                        r = pool._eventEnvelope(cls, serial, ps, pl)
+                    except Exception as ex:
+                        chk.violation({'kind': '_eventEnvelope raises %s on this payload' % type(ex).__name__, 'identifier': sid,
+                                       'pool': pn, 'class': cls.__name__, 'serial': serial, 'pool_serial': ps, 'payload': pl})
+                        continue
+                    if r != 'ver:3.0 server:%s serial:%d pool:%s poolserial:%d eventname:%s len:%d\n%s' % (
+                            sid, serial, pn, ps, name_of.get(cls), len(pl), pl):
+                        chk.violation({'kind': 'envelope text is not header line + payload verbatim', 'identifier': sid, 'pool': pn,
+                                       'class': cls.__name__, 'serial': serial, 'pool_serial': ps, 'payload': pl, 'envelope': r})
                     env_c.append('(%s, %s, %s, %s, %s, %s, %s)' % (tlit(sid), tlit(pn), cls_term(cls), zlit(serial), zlit(ps), tlit(pl), tlit(r)))
                     env_m.append((sid, pn, cls.__name__, serial, ps, pl))
                     chk.dist('envelope:' + ('ascii' if is_ascii(pl) else 'non-ascii'))
@@ -468,6 +477,12 @@ def _run(chk, wd, proved):
                        lambda data=data: events.ProcessLogStdoutEvent(FakeProc('p', 'g', 42, 0), 42, data)),
                       (events.ProcessCommunicationStderrEvent, '(AComm %s None 42 %s)' % (tlit('p'), pdata_term(data)),
                        lambda data=data: events.ProcessCommunicationStderrEvent(FakeProc('p', None, 42, 0), 42, data)),
+                      (events.Tick5Event, '(ATick 5)', lambda: events.Tick5Event(5, None))])
+    for data in (b'100%', b'%s %(ver)s', b'%'):
+        fixed.append([(events.ProcessCommunicationStdoutEvent, '(AComm %s (Some %s) 42 %s)' % (tlit('p'), tlit('g'), pdata_term(data)),
+                       lambda data=data: events.ProcessCommunicationStdoutEvent(FakeProc('p', 'g', 42, 0), 42, data)),
+                      (events.RemoteCommunicationEvent, '(ARemote %s %s)' % (rc_term('t%'), rc_term(data.decode('ascii'))),
+                       lambda data=data: events.RemoteCommunicationEvent('t%', data.decode('ascii'))),
                       (events.Tick5Event, '(ATick 5)', lambda: events.Tick5Event(5, None))])
     fixed.append([(events.RemoteCommunicationEvent, '(ARemote %s %s)' % (rc_term('t'), rc_term(u'\ud800')),
                    lambda: events.RemoteCommunicationEvent('t', u'\ud800')),
@@ -951,6 +966,148 @@ def _run(chk, wd, proved):
     chk.note('world: %d structured histories (every pair of %d subscription menus; add A, add B, remove A, add A, remove B, remove A '
              'with a state change, a tick and one more event after each), %d random three-pool histories' %
              (n_hist_exh, len(MENU), len(histories) - n_hist_exh))
+
+    # ---------------- L. listeners that reject: a rejected event is rebuffered in the pool that owns the listener only
+    rj_c, rj_m = part('reject', 'list (Z * list evclass) * list rop * list (Z * list Z)', 'check_reject')
+    RMENU = [['PROCESS_STATE'], ['EVENT'], ['PROCESS_STATE_RUNNING', 'TICK'], ['PROCESS_STATE', 'PROCESS_LOG'], ['TICK_5']]
+    REMITS = [('state', PSC.STARTING), ('state', PSC.RUNNING), ('tick', 2000.0), ('tick', 2061.0), ('log', 'stdout', b'x'),
+              ('state', PSC.EXITED), ('remote', 't', 'd'), ('state', PSC.STARTING), ('tick', 2200.0)]
+    em_class = {}
+
+    def run_reject(specs, answers, nrounds):
+        # a protocol-conforming script and, from plain bookkeeping, what each listener must be sent
+        ops, rops, st, ids = reject_case_impl(specs, answers, nrounds)
+        emitted, streams, left = I.run_reject_history(specs, ops)
+        # fill the emission slots of the Coq script: one REmit per event raised, with its serial (or -1)
+        flat = [x for grp in st['__em__'] for x in grp]
+        per_emit_op = st['__per_op__']
+        k = 0
+        rterms = []
+        for t in rops:
+            if t is None:
+                n = per_emit_op.pop(0)
+                for cn, sid_ in flat[k:k + n]:
+                    rterms.append('(REmit %s %s)' % (cn, zlit(-1 if sid_ is None else sid_)))
+                k += n
+            else:
+                rterms.append(t)
+        got = {}
+        bad = None
+        for nm, ty, prio in specs:
+            parsed = listener_stream_bytes(streams[nm])
+            serials = None if parsed is None else [parse_dec_bytes(dict(kvs).get(b'serial', b'')) for kvs, _ in parsed]
+            got[nm] = serials
+            if serials != st[nm]['sent'] or left[nm] != st[nm]['buf']:
+                bad = bad or {'pool': nm, 'serials_received': serials, 'expected': st[nm]['sent'],
+                              'left_in_buffer': left[nm], 'expected_in_buffer': st[nm]['buf']}
+        chk.dist('reject:pools%d' % len(specs))
+        distinct.add(('reject', tuple(tuple(st[nm]['sent']) for nm, _, _ in specs)))
+        if bad is not None:
+            chk.violation(dict(bad, kind='with several pools, a listener\'s rejection (RESULT 4 FAIL) changed what ANOTHER pool\'s listener '
+                                         'is sent, or a pool did not redeliver its own rejected event exactly once',
+                               pools=[[nm, ty, prio] for nm, ty, prio in specs], script=[_jsonable(list(o)) for o in ops],
+                               emitted=[[cn, pl, sr] for cn, pl, sr in emitted]))
+        rj_c.append('(%s, %s, %s)' % (
+            coq_list('(%d, %s)' % (ids[nm], coq_list(cls_term(getattr(events.EventTypes, t)) for t in ty)) for nm, ty, _ in specs),
+            coq_list(rterms),
+            coq_list('(%d, %s)' % (ids[nm], zlist(got[nm] or [])) for nm, _, _ in specs)))
+        rj_m.append({'pools': [[nm, ty, prio] for nm, ty, prio in specs], 'script': [_jsonable(list(o)) for o in ops]})
+
+    def reject_case_impl(specs, answers, nrounds):
+        ids = dict((nm, i + 1) for i, (nm, _, _) in enumerate(specs))
+        real_types = dict((nm, [getattr(events.EventTypes, t) for t in ty]) for nm, ty, _ in specs)
+        st = dict((nm, {'buf': [], 'busy': None, 'ready': False, 'sent': []}) for nm, _, _ in specs)
+        st['__em__'] = []
+        st['__per_op__'] = []
+        ops, rops = [], []
+        serial = [0]
+        pools_ = [nm for nm, _, _ in specs]
+
+        def ready(nm):
+            ops.append(('ready', nm))
+            st[nm]['ready'] = True
+            rops.append('(RReady %d)' % ids[nm])
+
+        def dispatch():
+            ops.append(('dispatch',))
+            for nm in pools_:
+                q = st[nm]
+                if q['ready'] and q['buf']:
+                    h = q['buf'].pop(0)
+                    q['sent'].append(h)
+                    q['busy'] = h
+                    q['ready'] = False
+            rops.append('RDispatch')
+
+        def answer(nm, ok):
+            ops.append(('answer', nm, ok))
+            q = st[nm]
+            h = q['busy']
+            q['busy'] = None
+            if not ok:
+                q['buf'].insert(0, h)
+            rops.append('(RAnswer %d %s)' % (ids[nm], blit(ok)))
+
+        def emit(em):
+            ops.append(('emit', em))
+            rops.append(None)
+            key = tuple(op[1] for op in ops if op[0] == 'emit')
+            if key not in em_class:
+                e_, _s, _l = I.run_reject_history([], [o for o in ops if o[0] == 'emit'])
+                em_class[key] = [cn for cn, _, _ in e_]
+            raised = em_class[key]
+            done = sum(len(g) for g in st['__em__'])
+            grp = []
+            for cn in raised[done:]:
+                cls = real_by_name[cn]
+                subs = [nm for nm in pools_ if any(issubclass(cls, t) for t in real_types[nm])]
+                sid_ = None
+                if subs:
+                    sid_ = serial[0]
+                    serial[0] += 1
+                    for nm in subs:
+                        st[nm]['buf'].append(sid_)
+                grp.append((cn, sid_))
+            st['__em__'].append(grp)
+            st['__per_op__'].append(len(grp))
+
+        for nm in pools_:
+            ready(nm)
+        ei = 0
+        for r in range(nrounds):
+            for _ in range(1 if r % 2 == 0 else 2):
+                emit(REMITS[ei % len(REMITS)])
+                ei += 1
+            dispatch()
+            for nm in pools_:
+                if st[nm]['busy'] is not None:
+                    answer(nm, answers(r, nm))
+                    ready(nm)
+        for _ in range(4):
+            dispatch()
+            for nm in pools_:
+                if st[nm]['busy'] is not None:
+                    answer(nm, True)
+                    ready(nm)
+        return ops, rops, st, ids
+
+    n_rej = 0
+    for ta in RMENU:
+        for tb in RMENU[:3]:
+            for prios in ((999, 999), (999, 5)):
+                for combo in itertools.product([True, False], repeat=4):
+                    if quick and prios == (999, 5) and combo.count(False) != 1:
+                        continue
+                    amap = {(0, 'A'): combo[0], (0, 'B'): combo[1], (1, 'A'): combo[2], (1, 'B'): combo[3]}
+                    run_reject([('A', ta, prios[0]), ('B', tb, prios[1])], lambda r, nm: amap.get((r, nm), True), 3)
+                    n_rej += 1
+    for _ in range(30 if quick else 800):
+        specs3 = [(nm, rng.choice(RMENU), rng.choice([999, 999, 1])) for nm in 'ABC'[:rng.choice([2, 3])]]
+        table = {}
+        run_reject(specs3, lambda r, nm: table.setdefault((r, nm), rng.random() < 0.55), rng.randrange(2, 6))
+        n_rej += 1
+    chk.note('reject: %d histories with 2-3 pools whose listeners have equal (and different) priorities, every OK/FAIL combination '
+             'over two rounds for 2 pools' % n_rej)
 
     # ---------------- compare everything inside Coq
     total = 0
